@@ -70,6 +70,10 @@ func RenderExpr(e Expr, o RenderOpts) string {
 	case ColRef:
 		if strings.Contains(t.Name, ".") {
 			o.feat("ref.path")
+			if o.BarePaths && o.Qualifier == "" {
+				o.feat("ref.path.bare")
+				return t.Name
+			}
 			if o.Qualifier != "" {
 				return "`" + o.Qualifier + "." + t.Name + "`"
 			}
